@@ -386,7 +386,7 @@ pub fn end_to_end_cells(tier: Tier) -> Vec<CellPlan> {
         c.cfg.hist = true;
         c.cfg.tick_offset = off;
         c.init = vec![Op::Spawn(0, cells::AB), Op::Spawn(1, cells::M_A)];
-        c.alphabet = vec![Op::Nop, Op::Mut(0, TA), Op::Mut(1, TA), Op::Mut(0, TB)];
+        c.alphabet = vec![Op::Nop, Op::Mut(0, TA), Op::Mut(1, TA), Op::Mut(0, TB), Op::Rm(0, TB), Op::Ins(0, TB)];
         c.tick_choice = false;
         c.rounds = if q { 3 } else { 4 };
         c.env = Env { hold_acks: true, hold_updates: 0, mutations: MutMenu::Full, leftover_choice: false, lossy: false };
